@@ -17,6 +17,7 @@ class ConstCtx(symx.Ctx):
     super().__init__()
     self.values = values
     self.symbolic_consts = symbolic_consts
+    self.concrete = not symbolic_consts
     self.rng = rng
 
   def _draw(self, name, kind, lo, hi, nan):
@@ -52,6 +53,18 @@ class ConstCtx(symx.Ctx):
       return v
     import z3
     return symx.SV(z3.IntVal(v), isint=True, dom=(lo, hi))
+
+  def nat(self, name):
+    self._draw(name, 'int', 0, 6, False)
+    v = int(self.values[name])
+    if not self.symbolic_consts:
+      return v
+    import z3
+    return symx.SV(z3.IntVal(v), isint=True)
+
+  def assume(self, cond):
+    if self.symbolic_consts:
+      super().assume(cond)
 
   def bool(self, name):
     self._draw(name, 'bool', None, None, False)
